@@ -3241,7 +3241,10 @@ class UTPM(Ring, RawAlgorithmsMixIn):
         tc = numpy.zeros((D, P, rowsums[-1],colsums[-1]))
         for r in range(Rb):
             for c in range(Cb):
-                tc[:,:,rowsums[r]:rowsums[r+1], colsums[c]:colsums[c+1]] = in_X[r,c].data[:,:,:,:]
+                # a block with fewer coefficients is a polynomial of lower degree: its higher
+                # coefficients are zero (directions are broadcast)
+                Db = in_X[r,c].data.shape[0]
+                tc[:Db,:,rowsums[r]:rowsums[r+1], colsums[c]:colsums[c+1]] = in_X[r,c].data[:,:,:,:]
 
         return UTPM(tc)
 
